@@ -121,7 +121,11 @@ def run(ctx):
             tx, ty = rnd.choice([(0, 0), (3, -5), (1000, 77)])
             fr = geom.Frame(2, 1.0, float(tx), float(ty), rnd.randint(0, 5))
             try:
-                region = geom.build(s, fr)
+                if n % 4 == 1:
+                    # built from other operands, used once (mask and box), then the operands are changed in place
+                    region = geom.build_via_assign(s, fr, lambda r: (r.to_mask(mode='center'), r.bounding_box))
+                else:
+                    region = geom.build(s, fr)
                 mask = region.to_mask(mode='center')
                 if s['k'] == 'compound':
                     bu = region.region1.bounding_box | region.region2.bounding_box
